@@ -10,7 +10,7 @@ from symx.core import SymInt, zint
 
 PID = "C12"
 TITLE = "The local filter implements its documented window predicate"
-EXPLANATION = ("real LocalBioFilter(...).valid(s, only_last) on a symbolic string over {A,C,G,T,N} of n characters, for a grid of "
+EXPLANATION = ("real LocalBioFilter(...).valid(s, only_last) on a symbolic string over {A,C,G,T,N,newline} of n characters, for a grid of "
                "configurations (window k, run limit, GC range incl. degenerate / asymmetric / lo>hi, motif sets incl. symbolic motifs): the "
                "verdict must equal an independent z3 predicate (characters, runs, motif and reverse complement, windowed G+C, short-string rule); "
                "only_last == whole-sequence verdict of the last window; spec-level lemmas (window conjunction for window-decidable "
@@ -19,7 +19,7 @@ STUBS = []
 ASSUMPTIONS = ["'within the configured fraction' is read with the implementation's float products gc_range[i] * observed_length (computed by "
                "Python itself, compared exactly as rationals)", "motifs are non-empty strings over A,C,G,T"]
 BUDGET_S = {"quick": 900, "thorough": 7200}
-ALPHA = "ACGTN"
+ALPHA = "ACGTN\n"
 
 
 def make_loader(cfg):
